@@ -313,7 +313,8 @@ impl<'i, R: RuleType> Pair<'i, R> {
 impl<'i, R: RuleType> Pairs<'i, R> {
     /// Create a new `Pairs` iterator containing just the single `Pair`.
     pub fn single(pair: Pair<'i, R>) -> Self {
-        let end = pair.pair();
+        // `pairs::new` takes an exclusive end: one past the pair's End token.
+        let end = pair.pair() + 1;
         pairs::new(
             pair.queue,
             pair.input,
